@@ -1,4 +1,5 @@
 import RedisVerif.Model.GrammarGen
+import RedisVerif.Lemmas.GrammarAlphabet
 import RedisVerif.Props.C16
 
 /-!
@@ -14,7 +15,12 @@ say that this table is not a second, hand-kept description but the grammar the C
 * `table_doms_ok` / `luaTable_doms_ok` — the arity rule of every entry implies the domain of its body
   (so a body never runs outside its domain: `BErr.unreachable` is unreachable);
 * `parse_is_generic` / `parse_is_generic_sub` / `parseLua_is_generic` — hence `parseCmd` and `parseLua`
-  are, for every frame, the arity test of the row followed by `runGen` over the row's descriptor.
+  are, for every frame, the arity test of the row followed by `runGen` over the row's descriptor;
+* `parse_alphabet` / `parse_alphabet_sub` / `parseLua_alphabet` — everything a grammar can answer for a command is
+  named by the command's row: the constructors of the row, the arity text of the row, an error literal of the
+  row (slot texts, option-value and missing-value texts, the unknown-word text, the literals of the finishing
+  checks) or a formatted error of the row's option table — for every frame, all three grammars.  (The `flits` /
+  `ctor` columns the check compares with the source are therefore complete, not merely declared.)
 -/
 namespace RedisVerif
 namespace C16
@@ -140,6 +146,62 @@ theorem parseLua_is_generic (name : Bytes) (args : List Bytes) (s : Spec)
   refine ⟨hm, ?_⟩
   simp only [parseLua, h, parseWith]
   exact spec_run_gen s hd args
+
+/-! ## the error / constructor alphabet of every command -/
+
+theorem table_tails_plain : (shapeRows table).all (fun r => r.gen.tail.plain) = true := by decide +kernel
+theorem luaTable_tails_plain : (shapeRows luaTable).all (fun r => r.gen.tail.plain) = true := by decide +kernel
+
+/-- what a grammar may answer for a command whose row is `(arityErr, d)` -/
+def RowAllows (arityErr : Bytes) (d : GenDesc) : Res → Prop
+  | .ok c => c.ctor ∈ d.ctors
+  | .error (.arity t) => t = arityErr
+  | .error (.body e) => e = .unreachable ∨ (∃ l ∈ d.lits, e = .lit l) ∨ (∃ f ∈ d.tail.fmts, ∃ w, e = .fmt f w)
+  | .error (.unknown _) => False
+
+theorem spec_allowed (s : Spec) (hd : aritySub s.arity s.body.gen.dom = true) (hp : s.body.gen.tail.plain = true)
+    (args : List Bytes) : RowAllows s.arityErr s.body.gen (s.run args) := by
+  rw [spec_run_gen s hd args]
+  cases s.arity.ok args.length with
+  | false => exact rfl
+  | true =>
+    simp only [if_true]
+    have := runGen_allowed s.body.gen (body_gen_finOk s.body) hp args
+    cases hr : runGen s.body.gen args with
+    | ok c => rw [hr] at this; exact this
+    | error e => rw [hr] at this; exact this
+
+/-- everything `Command::from_resp` answers for a command with a table entry is named by the entry's row -/
+theorem parse_alphabet (name : Bytes) (args : List Bytes) (s : Spec)
+    (h : findEntry table (kw name) = some (.cmd s)) :
+    RowAllows s.arityErr s.body.gen (parseCmd (name :: args)) := by
+  have hm := row_mem_cmd (findEntry_mem h)
+  rw [parse_of_find h]
+  exact spec_allowed s (List.all_eq_true.mp table_doms_ok _ hm) (List.all_eq_true.mp table_tails_plain _ hm) args
+
+/-- the same for the sub-commands of CONFIG / ACL / SCRIPT / FUNCTION / CLIENT / OBJECT / DEBUG -/
+theorem parse_alphabet_sub (name sub : Bytes) (args : List Bytes) (fam aerr : Bytes) (subs : List Spec)
+    (d : Bytes → List Bytes → Res) (s : Spec)
+    (h : findEntry table (kw name) = some (.family fam aerr subs d)) (hs : findSpec subs (kw sub) = some s) :
+    RowAllows s.arityErr s.body.gen (parseCmd (name :: sub :: args)) := by
+  have hm := row_mem_sub (findEntry_mem h) (findSpec_mem hs)
+  simp only [parseCmd, parseWith, h, hs]
+  exact spec_allowed s (List.all_eq_true.mp table_doms_ok _ hm) (List.all_eq_true.mp table_tails_plain _ hm) args
+
+/-- and for the redis.call translator -/
+theorem parseLua_alphabet (name : Bytes) (args : List Bytes) (s : Spec)
+    (h : findEntry luaTable (kw name) = some (.cmd s)) :
+    RowAllows s.arityErr s.body.gen (parseLua (name :: args)) := by
+  have hm := row_mem_cmd (findEntry_mem h)
+  simp only [parseLua, h, parseWith]
+  exact spec_allowed s (List.all_eq_true.mp luaTable_doms_ok _ hm) (List.all_eq_true.mp luaTable_tails_plain _ hm) args
+
+/-- non-vacuity: the alphabet of SET — 2 constructors' worth of structure: one constructor, eight literals
+    (four option values share the integer text), two refusals + no unknown-word format -/
+example : setSpec.body.gen.ctors = [s2b "Set"] ∧
+    setSpec.body.gen.lits = [.notInt, .setEx, .notInt, .setPx, .notInt, .setExat, .notInt, .setPxat, .syntax, .nxxx, .syntax] ∧
+    setSpec.body.gen.tail.fmts = [.setNotSupported, .setNotSupported] := by
+  refine ⟨rfl, by decide, by decide⟩
 
 /-- non-vacuity: the row of SET is found, its descriptor has two leading slots and a ten-entry option
     table, and the generic body answers what the grammar answers -/
